@@ -158,7 +158,12 @@ def run_case(args):
     if r.timed_out:
         r2 = execute(vi, case, timeout=100, msan=msan)     # re-run once with a 4x budget
         if r2.timed_out:
-            return ('hang', case, r2)
+            # slow is not stuck: big counts on growing lines cost quadratic time, 5-10x more under a sanitizer.  The arbiter is
+            # the uninstrumented build with a 300 s budget; a stream that ends there is counted as slow, not as a hang.
+            r3 = execute(common.build('plain'), case, timeout=300)
+            if r3.timed_out:
+                return ('hang', case, r3)
+            return ('slow', case, r3)
         r = r2
     rep = common.san_report(r)
     if rep is None and (r.rc == 97 or b'MemorySanitizer' in r.err):
@@ -175,6 +180,7 @@ def stream_class(case):
 
 def run(tier, V):
     vi = build('asan')
+    build('plain')      # the hang arbiter (cached for the workers)
     os.chmod(common.tmp_root(), 0o755)
     tests = test_streams()
     n = 12000 if tier == 'quick' else 150000
@@ -191,6 +197,7 @@ def run(tier, V):
     modes = {}
     wins = set()
     nbytes = 0
+    slow = 0
     samples = []
     for key, info, r in res:
         if key is None:
@@ -202,12 +209,15 @@ def run(tier, V):
             continue
         case = info
         modes[case['mode']] = modes.get(case['mode'], 0) + 1
+        if key == 'slow':
+            slow += 1
+            continue
         wit = {'mode': case['mode'], 'rows': case['rows'], 'cols': case['cols'], 'args': case['args'], 'files': case['files'], 'stream': case['data'], 'seed_index': case['idx']}
         if key == 'hang':
-            V.violation('hang:' + stream_class(case), 'editor did not reach the quit at the end of the stream within 100 s (confirmed by a re-run): mode %s stream %s' % (case['mode'], common.show(case['data'], 200)), wit)
+            V.violation('hang:' + stream_class(case), 'editor did not reach the quit at the end of the stream within 25 s, 100 s (sanitizer build) and 300 s (plain build): mode %s stream %s' % (case['mode'], common.show(case['data'], 200)), wit)
         else:
             V.violation(key, 'mode %s window %dx%d stream %s :: %s' % (case['mode'], case['rows'], case['cols'], common.show(case['data'], 160), summarize(r.err)), wit)
-    cov = {'msan_streams': nm, 'evaluations': n + nm, 'distinct_nontrivial': n + nm, 'streams_by_mode': modes, 'window_sizes_seen': sorted(wins), 'stream_bytes': nbytes,
+    cov = {'slow_streams_finished_only_by_the_plain_build': slow, 'msan_streams': nm, 'evaluations': n + nm, 'distinct_nontrivial': n + nm, 'streams_by_mode': modes, 'window_sizes_seen': sorted(wins), 'stream_bytes': nbytes,
            'test_scripts_used_as_seeds': len(tests), 'odd_seeds': len(VI_ODD) + len(EX_MISC),
            'rule': ('%d streams: vi grammar programs, ex grammar programs, hand-written odd-but-legal seeds, mutations (truncate/splice/duplicate/swap/insert valid UTF-8) of those and of the %d test scripts; '
                     'x random buffers (ASCII, multi-byte, wide, combining, RTL, long lines, empty, no final newline) x window sizes 2x2..60x200 x -v / -s -e / -e, run as uid nobody under ASan+UBSan (and a further slice under MemorySanitizer) with a whitelist shell. '
